@@ -10,14 +10,69 @@ Import ListNotations.
 Definition tol : Q := Qmake 1 1000000000.          (* 1e-9 : values through sqrt / division *)
 Definition tape_tol : Q := Qmake 1 100000000000.   (* 1e-11 : relative residual allowed on n^2 = sum sq *)
 
+(* ---------- source tie for metrics/regression.py ----------
+   The harness translates the Python source of the CURRENT working tree (ast) into a term of this little expression
+   language; `reval` interprets it with the combinators of Model/Metrics.v.  Per run: (1) for every function a lemma
+   `forall ax yt yp, reval ... = <hand-written model>` is attempted by conversion, (2) on every regression case the two
+   are compared exactly in Q.  A construct the translator does not know is reported as unsupported, never as a verdict. *)
+Inductive rexp :=
+| RArg (k : nat)                       (* k-th tensor argument of the function *)
+| ROne                                 (* the literal 1 *)
+| RSub (a b : rexp) | RMul (a b : rexp) | RDiv (a b : rexp)
+| RSq (a : rexp)                       (* a ** 2 *)
+| RMean (a : rexp) | RSum (a : rexp)   (* T.mean(a, axis=axis) / T.sum(a, axis=axis) *)
+| RMeanAll (a : rexp) | RSumAll (a : rexp)   (* T.mean(a) / T.sum(a): over everything whatever the axis argument *)
+| RKeep (a : rexp)                     (* the reduced tensor reshaped with shape[axis] = 1 (broadcasts against the full one) *)
+| RNormSq (a : rexp).                  (* T.norm(a) ** 2 *)
+Inductive rform := RPlain (e : rexp) | RSqrt (e : rexp) | RRatio (num den : rexp).   (* e | sqrt e | num / sqrt den *)
+
+Definition ridx (ax : option nat) (idx : list nat) : list nat := match ax with None => [] | Some a => remove_nth a idx end.
+(* full (op) keepdims-reduced: numpy broadcasting along the reduced axis *)
+Definition bcast (ax : option nat) (f : Q -> Q -> Q) (keepl keepr : bool) (A B : tensor Q) : tensor Q :=
+  match keepl, keepr with
+  | false, true => tabulate (shape A) (fun idx => f (tget Qops A idx) (tget Qops B (ridx ax idx)))
+  | true, false => tabulate (shape B) (fun idx => f (tget Qops A (ridx ax idx)) (tget Qops B idx))
+  | _, _ => tzip Qops f A B
+  end.
+Fixpoint reval (ax : option nat) (args : list (tensor Q)) (e : rexp) : bool * tensor Q :=
+  match e with
+  | RArg k => (false, nth k args (mk [] []))
+  | ROne => (false, mk [] [1])
+  | RSub a b => let '(ka, A) := reval ax args a in let '(kb, B) := reval ax args b in (ka && kb, bcast ax (fsub Qops) ka kb A B)
+  | RMul a b => let '(ka, A) := reval ax args a in let '(kb, B) := reval ax args b in (ka && kb, bcast ax (fmul Qops) ka kb A B)
+  | RDiv a b => let '(ka, A) := reval ax args a in let '(kb, B) := reval ax args b in (ka && kb, bcast ax (fdiv Qops) ka kb A B)
+  | RSq a => let '(ka, A) := reval ax args a in (ka, tmap (fsq Qops) A)
+  | RMean a => (false, tmean Qops ax (snd (reval ax args a)))
+  | RSum a => (false, tsum Qops ax (snd (reval ax args a)))
+  | RMeanAll a => (false, tmean Qops None (snd (reval ax args a)))
+  | RSumAll a => (false, tsum Qops None (snd (reval ax args a)))
+  | RKeep a => (true, snd (reval ax args a))
+  | RNormSq a => (false, mk [] [fsum Qops (map (fsq Qops) (data (snd (reval ax args a))))])
+  end.
+Definition rev (ax : option nat) (args : list (tensor Q)) (e : rexp) : tensor Q := snd (reval ax args e).
+
+(* what the translated source must equal, per function (numbering = REG in C20.py) *)
+Definition src_agree (which : nat) (ax : option nat) (yt yp : tensor Q) (f : rform) : bool :=
+  match which, f with
+  | 0%nat, RPlain e => qt_eqb (rev ax [yt; yp] e) (MSE Qops ax yt yp)
+  | 1%nat, RSqrt e => qt_eqb (rev ax [yt; yp] e) (MSE Qops ax yt yp)
+  | 2%nat, RPlain e => qt_eqb (rev ax [yt; yp] e) (mk [] [R2_score Qops yt yp])
+  | 3%nat, RPlain e => qt_eqb (rev ax [yt; yp] e) (covariance Qops ax yt yp)
+  | 4%nat, RPlain e => qt_eqb (rev ax [yt] e) (variance Qops ax yt)
+  | 5%nat, RRatio n d => qt_eqb (rev ax [yt; yp] n) (fst (corr_parts Qops ax yt yp)) && qt_eqb (rev ax [yt; yp] d) (snd (corr_parts Qops ax yt yp))
+  | 6%nat, RRatio n d => qt_eqb (rev ax [yt; yp] n) (fst (refl_parts Qops ax yt yp)) && qt_eqb (rev ax [yt; yp] d) (snd (refl_parts Qops ax yt yp))
+  | 7%nat, RSqrt e => qt_eqb (rev ax [yt] e) (variance Qops ax yt)
+  | _, _ => false
+  end.
+
 Inductive body :=
 | KCong (absv : bool) (As Bs : list (mat Q)) (nas nbs : list (list Q)) (impl : res (Q * list nat))
 | KPermute (ref fs : list (mat Q)) (w : list Q) (nas nbs : list (list Q)) (impl : res (list Q * list (mat Q) * list nat))
 | KPermuteList (ref : list (mat Q)) (nas : list (list Q)) (ts : list (list Q * list (mat Q) * list (list Q)))
                (impl : res (list (list Q * list (mat Q) * list nat)))
 | KCorrIdx (meth : option cmethod) (ctol : Q) (f1 f2 : list (mat Q)) (n1 n2 : list (list Q)) (impl : res Q)
-| KLev (M U Vt : mat Q) (sv : list Q) (eps : Q) (impl : res (list Q))
-| KReg (which : nat) (ax : option nat) (yt yp : tensor Q) (exact : bool) (impl : res (tensor Q)).
+| KLev (renorm : bool) (ltol : Q) (M U Vt : mat Q) (sv : list Q) (eps : Q) (impl : res (list Q))
+| KReg (which : nat) (ax : option nat) (yt yp : tensor Q) (exact : bool) (impl : res (tensor Q)) (src : option rform).
 Definition case := (nat * body)%type.
 
 Fixpoint forallb2 {A B} (f : A -> B -> bool) (l : list A) (l' : list B) : bool :=
@@ -96,22 +151,22 @@ Definition agree_corridx meth ctol f1 f2 n1 n2 (impl : res Q) : bool :=
   | _, _ => false
   end.
 
-(* thin SVD tape: U (nr x k), sv (k), Vt (k x nc) *)
-Definition svd_ok (M U Vt : mat Q) (sv : list Q) : bool :=
+(* thin SVD tape: U (nr x k), sv (k), Vt (k x nc); ltol = 1e-9 for float64 input, 1e-5 for float32 input *)
+Definition svd_ok (ltol : Q) (M U Vt : mat Q) (sv : list Q) : bool :=
   let nr := nrows M in let nc := ncols M in let k := length sv in
   let scale := Qred (1 + list_max Qops sv) in
   forallb (fun s => Qle_bool 0 s) sv &&
   forallb (fun a => forallb (fun b =>
-     qclose tol 0 (sumn Qops nr (fun i => Qred (mget Qops U i a * mget Qops U i b))) (if Nat.eqb a b then 1 else 0))
+     qclose ltol 0 (sumn Qops nr (fun i => Qred (mget Qops U i a * mget Qops U i b))) (if Nat.eqb a b then 1 else 0))
      (seq 0 k)) (seq 0 k) &&
   forallb (fun i => forallb (fun j =>
-     qclose (Qred (tol * scale)) 0 (sumn Qops k (fun a => Qred (Qred (mget Qops U i a * nth a sv 0) * mget Qops Vt a j))) (mget Qops M i j))
+     qclose (Qred (ltol * scale)) 0 (sumn Qops k (fun a => Qred (Qred (mget Qops U i a * nth a sv 0) * mget Qops Vt a j))) (mget Qops M i j))
      (seq 0 nc)) (seq 0 nr).
 
-Definition agree_lev (M U Vt : mat Q) sv eps (impl : res (list Q)) : bool :=
-  match leverage_score_dist Qops U sv (nrows M) (ncols M) eps, impl with
+Definition agree_lev (renorm : bool) (ltol : Q) (M U Vt : mat Q) sv eps (impl : res (list Q)) : bool :=
+  match leverage_score_dist_any Qops renorm U sv (nrows M) (ncols M) eps, impl with
   | Err, Err => true
-  | Ok lm, Ok l => svd_ok M U Vt sv && q_list_close tol tol lm l
+  | Ok lm, Ok l => svd_ok ltol M U Vt sv && q_list_close ltol ltol lm l
   | _, _ => false
   end.
 
@@ -155,8 +210,10 @@ Definition agree (c : case) : bool :=
   | KPermute ref fs w nas nbs impl => agree_permute ref fs w nas nbs impl
   | KPermuteList ref nas ts impl => agree_permute_list ref nas ts impl
   | KCorrIdx meth ctol f1 f2 n1 n2 impl => agree_corridx meth ctol f1 f2 n1 n2 impl
-  | KLev M U Vt sv eps impl => agree_lev M U Vt sv eps impl
-  | KReg which ax yt yp exact impl => agree_reg which ax yt yp exact impl
+  | KLev renorm ltol M U Vt sv eps impl => agree_lev renorm ltol M U Vt sv eps impl
+  | KReg which ax yt yp exact impl src =>
+      agree_reg which ax yt yp exact impl &&
+      match src with Some f => negb (axis_ok ax yt) || src_agree which ax yt yp f | None => true end
   end.
 Definition ident (c : case) : nat := fst c.
 Definition failing := failing_ids agree ident.
